@@ -2448,6 +2448,34 @@ theorem c03_self_send_equals_wire {V : Type} (r : Registry) (tc : TCodec V) (hso
     simp [codecOf, Function.comp]
 
 
+/-! #### interface-typed fields inside a message of the wire model -/
+
+/-- **a point or scalar inside a message**: on the wire an interface-typed field is a byte-string field
+(`encIface`: tag of the dynamic type if a generator is registered, then the value's own bytes; nothing when
+nil — `Ty.opt .bytes`).  For every schema, every well-formed value and every position that holds such a
+field: `Decode` hands the decoder of interface fields exactly the bytes `encIface` wrote, and it instantiates
+the sent dynamic type from the sent bytes exactly when `ifaceSame` says so — layer 2 (`c03_wire_roundtrip`) and
+the dispatch of interface fields (`c03_iface_*`) compose.  (Falsified by: a field written with another wire
+type or without its length, a tag of another length, a decoder that strips the tag before looking it up.) -/
+theorem c03_wire_iface_field (ts : List Wire.Ty) (vs : List Wire.Val) (hw : Wire.wf (.msg ts) (.msg vs) = true)
+    (k : Nat) (suite : Option SuiteId) (kd : Kind) (g : Grp) (bytes : List Nat)
+    (hk : vs[k]? = some (.opt (some (.bytes (encIface onetGens g.marshalID bytes))))) :
+    ∃ vs', Wire.decode ts (Wire.encMsg 1 ts vs) = some vs' ∧
+      ∃ b, vs'[k]? = some (.opt (some (.bytes b))) ∧
+        (decIface onetGens (defaultConstructors suite kd) b = some (g, bytes) ↔
+          ifaceSame onetGens suite kd g bytes = true) := by
+  refine ⟨vs, Wire.c03_wire_roundtrip ts vs hw, _, hk, ?_⟩
+  simp [ifaceSame]
+
+/-- non-vacuity: an Ed25519 point (tagged `ed.point`) as the second field of a message is inside the theorem,
+and it comes back on a connection of any suite -/
+example :
+    let fld : Wire.Val := .opt (some (.bytes (encIface onetGens Grp.edP.marshalID [1, 2, 3])))
+    Wire.wf (.msg [.i32, .opt .bytes, .bytes]) (.msg [.int 5, fld, .bytes [7]]) = true ∧
+    Wire.encMsg 1 [.i32, .opt .bytes, .bytes] [.int 5, fld, .bytes [7]] =
+      [8, 10, 18, 11, 101, 100, 46, 112, 111, 105, 110, 116, 1, 2, 3, 26, 1, 7] ∧
+    ifaceSame onetGens none .point .edP [1, 2, 3] = true := by decide
+
 /-! #### field numbers (`Model/C03Fields.lean`) -/
 namespace Fields
 
